@@ -18,6 +18,9 @@ def suite_histories(suite, tier, seed):
     if suite == 'tours':
         import tours
         return tours.tour_histories(seed, quick), dict(crash=0, remount=False)
+    if suite == 'apitours':
+        import tours
+        return tours.api_tour_histories(seed, quick), dict(crash=0, remount=False)
     if suite == 'fault':
         return fsgen.fault_histories(seed, quick), dict(crash=0, remount=False, tlc_timeout=3000)
     if suite == 'mount':
@@ -152,6 +155,11 @@ def run_suite(suite, tier, seed, force=False):
                events=n_events, classes=sorted(map(list, classes)), sample=sample,
                badimage=[b for r in results for b in r.get('badimage', [])],
                scen={h['id']: None for h in hs})
+    if suite == 'apitours':
+        import tours
+        total, mism = tours.api_drift(cdir, hs)
+        res['drift_compared'] = total
+        res['drift'] = mism[:20]
     if suite == 'tours':
         import tours
         total, mism = tours.drift(cdir, hs)
